@@ -274,14 +274,56 @@ def rule_zerofill(rep: Report, repo: Repo) -> None:
              'ranges are consulted by the word reader before garbage is declared; the plain copy covers [0, data_length)', 4)
     im = _reader_init_memory(repo)
     site = f'{R}:{im.lineno} Reader._init_memory'
-    dense = [n for n in ast.walk(im) if isinstance(n, ast.For) and norm(n.iter) == 'range(data_length, segment_length)']
-    ok_dense = bool(dense) and norm(dense[0].body[0]) == 'self.memory[segment_start + i] = 0'
-    lazy = [norm(c.args[0]) for c in calls(im) if dotted(c.func) == 'self.zeros_boundaries.append']
-    rep.check(ok_dense, 'C06.ZEROFILL', 'dense', norm(dense[0]) .split('\n')[0] if dense else 'missing', site)
-    rep.check(lazy == ['(segment_start + data_length, segment_start + segment_length)'], 'C06.ZEROFILL', 'lazy', str(lazy), site)
-    outer = [norm(n.test) for n in ast.walk(im) if isinstance(n, ast.If) and 'segment_length' in norm(n.test)]
-    rep.check('segment_length > data_length' in outer and 'segment_length - data_length < _reserved_dict_threshold' in outer,
-              'C06.ZEROFILL', 'branch-tests', str(outer), site)
+    # all three facts are FOLDED on a grid of (segment_start, data_length, segment_length) after reading named sub-expressions
+    # through (zeros_start / zeros_end / tail_length ...): what matters is which addresses are zeroed, not how they are spelled
+    grid = [(0, 0, 4), (10, 2, 6), (3, 5, 5), (7, 1, 2), (100, 4, 10)]
+
+    def ev(e: ast.expr, env: Dict[str, int]) -> Optional[int]:
+        try:
+            return eval_int_expr(resolve_names(im, e), env)
+        except AnalysisError:
+            return None
+    dense_txt, ok_dense = 'missing', False
+    for n in ast.walk(im):
+        if not (isinstance(n, ast.For) and isinstance(n.target, ast.Name) and isinstance(n.iter, ast.Call) and dotted(n.iter.func) == 'range'
+                and len(n.body) == 1 and isinstance(n.body[0], ast.Assign) and len(n.body[0].targets) == 1
+                and isinstance(n.body[0].targets[0], ast.Subscript) and norm(n.body[0].targets[0].value) == 'self.memory'
+                and norm(n.body[0].value) == '0'):
+            continue
+        dense_txt = norm(n).split('\n')[0]
+        good = True
+        for ss, dl, sl in grid:
+            env = {'segment_start': ss, 'data_length': dl, 'segment_length': sl}
+            args = [ev(a, env) for a in n.iter.args]
+            if any(a is None for a in args):
+                good = False
+                break
+            addrs = [ev(n.body[0].targets[0].slice, {**env, n.target.id: k}) for k in range(*args)]      # type: ignore[arg-type]
+            good = good and addrs == list(range(ss + dl, ss + sl))
+        ok_dense = ok_dense or good
+    rep.check(ok_dense, 'C06.ZEROFILL', 'dense', dense_txt, site, expected='memory[a] = 0 for a in [segment_start + data_length, segment_start + segment_length)')
+    lazy_calls = [c for c in calls(im) if dotted(c.func) == 'self.zeros_boundaries.append' and len(c.args) == 1]
+    lazy = [norm(c.args[0]) for c in lazy_calls]
+    ok_lazy = len(lazy_calls) == 1
+    if ok_lazy:
+        a0 = resolve_names(im, lazy_calls[0].args[0])
+        ok_lazy = isinstance(a0, ast.Tuple) and len(a0.elts) == 2 and all(
+            (ev(a0.elts[0], {'segment_start': ss, 'data_length': dl, 'segment_length': sl}), ev(a0.elts[1], {'segment_start': ss, 'data_length': dl, 'segment_length': sl}))
+            == (ss + dl, ss + sl) for ss, dl, sl in grid)
+    rep.check(ok_lazy, 'C06.ZEROFILL', 'lazy', str(lazy), site, expected='one range (segment_start + data_length, segment_start + segment_length)')
+    tests = [n.test for n in ast.walk(im) if isinstance(n, ast.If) and 'segment_length' in norm(resolve_names(im, n.test))]
+    outer = [norm(t) for t in tests]
+
+    def folds_to(t: ast.expr, want: Any, cases: List[Tuple[int, int, int]], thr: int) -> bool:
+        for ss, dl, sl in cases:
+            v = ev(t, {'segment_start': ss, 'data_length': dl, 'segment_length': sl, '_reserved_dict_threshold': thr})
+            if v is None or bool(v) != want(ss, dl, sl, thr):
+                return False
+        return True
+    has_tail = any(folds_to(t, lambda ss, dl, sl, thr: sl > dl, [(0, 4, 4), (0, 3, 4), (6, 0, 2), (6, 2, 2), (1, 5, 9)], 5) for t in tests)
+    has_thr = any('_reserved_dict_threshold' in norm(resolve_names(im, t)) and folds_to(
+        t, lambda ss, dl, sl, thr: sl - dl < thr, [(0, 0, 4), (0, 0, 5), (0, 0, 6), (9, 3, 7), (9, 3, 8), (9, 3, 9)], 5) for t in tests)
+    rep.check(has_tail and has_thr, 'C06.ZEROFILL', 'branch-tests', str(outer), site, expected='segment_length > data_length; tail length < _reserved_dict_threshold chooses the dense fill')
     # the plain copy, in the indexing or the enumerate-over-a-slice spelling: folded on a grid, word k of the segment's data goes
     # to address segment_start + k, for k in [0, data_length)
     imn = normalize_indexed_loops(im)
@@ -301,7 +343,8 @@ def rule_zerofill(rep: Report, repo: Repo) -> None:
             good = good and pairs == [(ss + k, ds + k) for k in range(dl)]
         plain_ok = plain_ok or good
     rep.check(plain_ok, 'C06.ZEROFILL', 'plain-copy', plain_txt, site, expected='memory[segment_start + k] = data[data_start + k] for k < data_length')
-    gm = repo.func(R, 'Reader._get_memory_word')
+    from ..pyfacts import search_helpers_as_any
+    gm = search_helpers_as_any(repo, R, 'Reader', repo.func(R, 'Reader._get_memory_word'))       # an extracted range search reads as the loop
     searches = membership_searches(gm, 'self.zeros_boundaries')
     ok = len(searches) == 1 and len(searches[0][3]) == 2 and cn(searches[0][0]) == cc(f'{searches[0][3][0]} <= word_address < {searches[0][3][1]}')
     class _L:        # the old name, kept for the message below
@@ -390,7 +433,9 @@ def writer_validated(repo: Repo) -> Tuple[Set[str], Dict[str, str]]:
     for fn in ('Writer.add_segment', 'Writer.add_data', 'Writer.write_to_file', reljump_writer(repo)):
         if not repo.has_func(W, fn):
             continue
-        f = repo.func(W, fn)
+        wcls = next((n for n in repo.mod(W).body if isinstance(n, ast.ClassDef) and n.name == 'Writer'), None)
+        keep_ = tuple(m.name for m in (wcls.body if wcls else []) if isinstance(m, ast.FunctionDef) and m.name.startswith('_validate'))
+        f = expand_private_calls(repo, W, repo.func(W, fn), 'Writer', keep=keep_)        # an extracted `_check_x(..)` reads as the test it makes
         for test, r, outer in raise_guards(f):
             if raised_class(r) != 'FlipJumpWriteFjmException':
                 continue
